@@ -156,17 +156,6 @@ func init() {
 	reg("time.Since", func(w *Worker, fr *frame, a []Value, fn *ssa.Function) Value {
 		return w.ctx.Sub(w.clockRead("clock"), w.timeNS(a[0]))
 	})
-	reg("(time.Duration).String", func(w *Worker, fr *frame, a []Value, fn *ssa.Function) Value {
-		return StringV{Opaque: w.newID()}
-	})
-	reg("(time.Duration).Seconds", func(w *Worker, fr *frame, a []Value, fn *ssa.Function) Value {
-		if s, ok := a[0].(*Term).ConstS(); ok {
-			return FloatV(float64(s) / 1e9)
-		}
-		w.unsupported("Duration.Seconds of symbolic duration")
-		return nil
-	})
-
 	// context: opaque, never cancelled
 	ctxVal := func(w *Worker) Value {
 		return IfaceV{T: nopType, V: &OpaqueV{Kind: "context", ID: w.newID()}}
